@@ -10,14 +10,17 @@ package main
 //                2 taken from an earlier Set-Cookie of this history (aux picks it), 3 truncated, 4 bit-flipped,
 //                5 re-encoded, 6 minted under a foreign key/salt, 7 garbage (aux picks it)
 //          -> obs [status, routed universe index (-1 none, -2 unknown URL), issued cookie string id (-1 none)]
-//      [2 u w] UpsertServer(universe[u], Weight(w)) -> obs [len(Servers())]
+//      [2 u w] UpsertServer(universe[u], Weight(w)) -> obs [len(Servers())]; w = 0 on an existing member drains it (it stays a
+//              member: its cookies keep pinning, NextServer never picks it); on a new server Weight(0) means the default weight
 //      [3 u]   RemoveServer(universe[u])            -> obs [len(Servers())]
 //      [4 d]   clock.Advance(d ns)                  -> obs []
 // facts (tag a b r) are the results of the library functions the Coq model does not implement, recorded from the
 // real library on the arguments of this case (see coq/Model/Sticky.v): url.Parse, URL.String, fnv1a, AES-GCM+base64,
 // strings.Split/ParseInt, and the reference round-robin choice nxt.
-// Monitors (C11): pin, degrade (+ the fresh cookie decodes to and pins the chosen server), never outside the pool,
-// never an error status while the pool is non-empty.
+// Monitors (C11): pin (whatever the rotation state and the weights, including weight 0), degrade (+ the fresh cookie
+// decodes to and pins the chosen server, which has positive weight), never outside the pool, never an error status while
+// a member has positive weight (with every weight 0: pinned requests are served, the others get 500).
+// STICKY_DEBUG=1 prints every op to stderr as it is executed.
 
 import (
 	"crypto/aes"
@@ -28,6 +31,7 @@ import (
 	"net/http"
 	"net/http/httptest"
 	"net/url"
+	"os"
 	"regexp"
 	"strconv"
 	"strings"
@@ -268,6 +272,7 @@ func (s *simRR) next() int {
 			if s.cw <= 0 {
 				s.cw = m
 				if s.cw == 0 {
+					s.reset() // rr.go resets the iterator before answering "all servers have 0 weight"
 					return -1
 				}
 			}
@@ -344,13 +349,92 @@ func (c *stickyComp) Gen(rng *rand.Rand, idx int, tier string, targeted bool) hl
 	if tier == "thorough" {
 		nops = 20 + rng.Intn(120)
 	}
+	// the generator's own view of the pool (universe index per distinct (scheme, host, path), and its weight), used to
+	// aim drain episodes at current members
+	gkeys := make([]string, nu)
+	for i, su := range universe {
+		if pu, err := url.Parse(su); err == nil {
+			gkeys[i] = keyOf(pu)
+		}
+	}
+	type gm struct {
+		u int
+		w int64
+	}
+	var gpool []gm
+	gfind := func(u int) int {
+		for i, m := range gpool {
+			if gkeys[m.u] == gkeys[u] {
+				return i
+			}
+		}
+		return -1
+	}
+	upsert := func(u int, w int64) {
+		h.Ops = append(h.Ops, []int64{2, int64(u), w})
+		if i := gfind(u); i >= 0 {
+			gpool[i].w = w
+		} else {
+			if w == 0 {
+				w = 1 // a new server with Weight(0) gets the default weight
+			}
+			gpool = append(gpool, gm{u, w})
+		}
+	}
+	remove := func(u int) {
+		h.Ops = append(h.Ops, []int64{3, int64(u)})
+		if i := gfind(u); i >= 0 {
+			gpool = append(gpool[:i], gpool[i+1:]...)
+		}
+	}
+	request := func(kind int64, srv int, aux int64) { h.Ops = append(h.Ops, []int64{1, kind, int64(srv), aux}) }
 	for i := 0; i < 2+rng.Intn(3); i++ {
-		h.Ops = append(h.Ops, []int64{2, int64(rng.Intn(nu)), 1 + int64(rng.Intn(3))})
+		upsert(rng.Intn(nu), 1+int64(rng.Intn(3)))
 	}
 	nleaves := int64(len(cd.leaves()))
+	drainP := 6
+	if targeted {
+		drainP = 14
+	}
 	for i := 0; i < nops; i++ {
 		r := rng.Intn(100)
 		switch {
+		case r < drainP && len(gpool) > 0:
+			// drain episode: UpsertServer(member, Weight(0)) keeps the member in the pool (ServerWeight reports it) but
+			// NextServer never picks it; its cookies must keep pinning
+			m := gpool[rng.Intn(len(gpool))].u
+			all := rng.Intn(3) == 0
+			if all {
+				for _, x := range append([]gm(nil), gpool...) {
+					upsert(x.u, 0)
+				}
+			} else {
+				upsert(m, 0)
+			}
+			request(1, m, 0)                      // cookie minted for the drained member: must pin
+			request(0, 0, 0)                      // no cookie: a positive-weight member (500 when every weight is 0)
+			request(2, 0, int64(rng.Intn(1<<20))) // an earlier Set-Cookie
+			if rng.Intn(2) == 0 {
+				h.Ops = append(h.Ops, []int64{4, hlib.Pick(rng, 100e6, 700e6, 1e9)})
+			}
+			request(0, 0, 0)
+			request(1, m, int64(rng.Intn(int(nleaves)+1)))
+			if all && len(gpool) > 1 {
+				request(1, gpool[rng.Intn(len(gpool))].u, 0)
+			}
+			if rng.Intn(4) != 0 { // restore (sometimes the drained state persists through the following random ops)
+				if all {
+					for _, x := range append([]gm(nil), gpool...) {
+						if rng.Intn(4) != 0 {
+							upsert(x.u, 1+int64(rng.Intn(3)))
+						}
+					}
+				} else {
+					upsert(m, 1+int64(rng.Intn(3)))
+				}
+				request(1, m, 0)
+				request(0, 0, 0)
+			}
 		case r < 58:
 			kind := hlib.Pick(rng, 0, 1, 1, 1, 2, 2, 2, 2, 2, 2, 3, 4, 4, 5, 6, 7)
 			if targeted {
@@ -363,11 +447,19 @@ func (c *stickyComp) Gen(rng *rand.Rand, idx int, tier string, targeted bool) hl
 					aux = 1 + int64(rng.Intn(int(nleaves)))
 				}
 			}
-			h.Ops = append(h.Ops, []int64{1, kind, int64(rng.Intn(nu)), aux})
+			srv := rng.Intn(nu)
+			if kind == 1 && len(gpool) > 0 && rng.Intn(2) == 0 {
+				srv = gpool[rng.Intn(len(gpool))].u
+			}
+			request(kind, srv, aux)
 		case r < 70:
-			h.Ops = append(h.Ops, []int64{2, int64(rng.Intn(nu)), 1 + int64(rng.Intn(3))})
+			u := rng.Intn(nu)
+			if len(gpool) > 0 && rng.Intn(3) == 0 {
+				u = gpool[rng.Intn(len(gpool))].u // re-upsert of a member: weight change, sometimes to 0
+			}
+			upsert(u, hlib.Pick(rng, 0, 1, 1, 2, 2, 3))
 		case r < 80:
-			h.Ops = append(h.Ops, []int64{3, int64(rng.Intn(nu))})
+			remove(rng.Intn(nu))
 		default:
 			h.Ops = append(h.Ops, []int64{4, hlib.Pick(rng, 100e6, 700e6, 1e9, 1300e6, 1999e6, 3e9, 10e9, 61e9)})
 		}
@@ -459,6 +551,13 @@ func (c *stickyComp) Run(h *hlib.History) (mons []hlib.Mon, ok bool) {
 	}
 	var jar []jarEntry
 	desc := []string{"codec " + cd.String() + fmt.Sprintf(" variant %d", variant)}
+	debug := os.Getenv("STICKY_DEBUG") != ""
+	note := func(s string) {
+		desc = append(desc, s)
+		if debug {
+			fmt.Fprintln(os.Stderr, s)
+		}
+	}
 	mon := func(step int, f string, a ...interface{}) {
 		mons = append(mons, hlib.Mon{Prop: "C11", Step: step, Msg: fmt.Sprintf(f, a...)})
 	}
@@ -507,17 +606,24 @@ func (c *stickyComp) Run(h *hlib.History) (mons []hlib.Mon, ok bool) {
 	}
 
 	for step, op := range h.Ops {
+		if debug {
+			fmt.Fprintln(os.Stderr, "op", step, op[:min(len(op), 4)])
+		}
 		switch {
 		case len(op) == 3 && op[0] == 2:
 			u, w := int(op[1]), int(op[2])
-			if u < 0 || u >= len(universe) || w < 1 || w > 100 {
+			if u < 0 || u >= len(universe) || w < 0 || w > 100 {
 				return nil, false
 			}
 			pu, _ := url.Parse(universe[u])
 			_ = lb.UpsertServer(pu, roundrobin.Weight(w))
 			if m := memberWithKey(u); m == -1 {
 				members = append(members, u)
-				sim.srv = append(sim.srv, simSrv{u, w})
+				sw := w
+				if sw == 0 {
+					sw = 1 // rr.go: a new server whose weight is 0 after the options gets defaultWeight
+				}
+				sim.srv = append(sim.srv, simSrv{u, sw})
 			} else {
 				for i := range sim.srv {
 					if sim.srv[i].u == m {
@@ -527,7 +633,7 @@ func (c *stickyComp) Run(h *hlib.History) (mons []hlib.Mon, ok bool) {
 			}
 			sim.reset()
 			h.Obs = append(h.Obs, []int64{int64(len(lb.Servers()))})
-			desc = append(desc, fmt.Sprintf("Upsert(%s, w=%d)", universe[u], w))
+			note(fmt.Sprintf("Upsert(%s, w=%d)", universe[u], w))
 		case len(op) == 2 && op[0] == 3:
 			u := int(op[1])
 			if u < 0 || u >= len(universe) {
@@ -546,7 +652,7 @@ func (c *stickyComp) Run(h *hlib.History) (mons []hlib.Mon, ok bool) {
 				sim.reset()
 			}
 			h.Obs = append(h.Obs, []int64{int64(len(lb.Servers()))})
-			desc = append(desc, fmt.Sprintf("Remove(%s)", universe[u]))
+			note(fmt.Sprintf("Remove(%s)", universe[u]))
 		case len(op) == 2 && op[0] == 4:
 			if op[1] < 0 || op[1] > 1e12 {
 				return nil, false
@@ -554,7 +660,7 @@ func (c *stickyComp) Run(h *hlib.History) (mons []hlib.Mon, ok bool) {
 			clock.Advance(time.Duration(op[1]))
 			now += op[1]
 			h.Obs = append(h.Obs, []int64{})
-			desc = append(desc, fmt.Sprintf("Tick(%s)", time.Duration(op[1])))
+			note(fmt.Sprintf("Tick(%s)", time.Duration(op[1])))
 		case len(op) >= 4 && op[0] == 1:
 			kind, srv, aux := op[1], int(op[2]), op[3]
 			if srv < 0 || srv >= len(universe) || aux < 0 || kind < 0 || kind > 7 {
@@ -714,6 +820,10 @@ func (c *stickyComp) Run(h *hlib.History) (mons []hlib.Mon, ok bool) {
 			if issued != nil {
 				ck = in.id(*issued)
 				sim.next()
+			} else if status == 500 && routed == -1 {
+				sim.next() // NextServer() was called and failed (no server, or every weight 0: the iterator is reset)
+			}
+			if issued != nil {
 				for _, k := range []int64{1, 2} {
 					if p, ok := aesOpen(k, *issued); ok {
 						of = append(of, 5, k, in.id(p), ck)
@@ -728,7 +838,7 @@ func (c *stickyComp) Run(h *hlib.History) (mons []hlib.Mon, ok bool) {
 			}
 			h.Ops[step] = append([]int64{1, kind, int64(srv), aux, hlib.B2i(has), in.id(cval), nxt}, of...)
 			h.Obs = append(h.Obs, []int64{int64(status), int64(routed), ck})
-			desc = append(desc, fmt.Sprintf("Request(%s) -> status %d routed %d set-cookie %v", what, status, routed, issued != nil))
+			note(fmt.Sprintf("Request(%s) -> status %d routed %d set-cookie %v", what, status, routed, issued != nil))
 
 			// ---- monitors: a direct reading of the property on what the implementation did ----
 			isMember := func(u int) bool {
@@ -739,8 +849,13 @@ func (c *stickyComp) Run(h *hlib.History) (mons []hlib.Mon, ok bool) {
 				}
 				return false
 			}
-			if len(members) > 0 && status != 200 {
-				mon(step, "request (%s) answered %d while the pool has %d members", what, status, len(members))
+			positive := 0 // members NextServer may choose (weight > 0)
+			weightOf := map[int]int{}
+			for _, x := range sim.srv {
+				weightOf[x.u] = x.w
+				if x.w > 0 {
+					positive++
+				}
 			}
 			if routed != -1 && !isMember(routed) {
 				mon(step, "request (%s) routed outside the pool (universe index %d, url %q)", what, routed, routedURL)
@@ -771,14 +886,33 @@ func (c *stickyComp) Run(h *hlib.History) (mons []hlib.Mon, ok bool) {
 					pinTo = memberWithKey(target)
 				}
 			}
-			if len(members) > 0 && status == 200 {
-				pinned := issued == nil
-				if mustPin {
-					hlib.Count("expect_pin", 1)
-					if routed != pinTo || !pinned {
-						mon(step, "pin: request (%s) carries a valid cookie for member %s but was routed to %d (set-cookie %v)", what, universe[pinTo], routed, issued != nil)
+			if mustPin {
+				// regardless of rotation state and weights: a drained (weight 0) member still owns its sessions
+				hlib.Count("expect_pin", 1)
+				if weightOf[pinTo] == 0 {
+					hlib.Count("expect_pin_drained_member", 1)
+				}
+				if status != 200 || routed != pinTo || issued != nil {
+					mon(step, "pin: request (%s) carries a valid cookie for member %s (weight %d) but got status %d, routed to %d, set-cookie %v", what, universe[pinTo], weightOf[pinTo], status, routed, issued != nil)
+				}
+			} else if status != 200 {
+				if positive > 0 {
+					mon(step, "request (%s) answered %d while the pool has %d members with positive weight", what, status, positive)
+				} else if len(members) > 0 {
+					hlib.Count("all_weights_zero_not_pinned", 1)
+					if status != 500 || routed != -1 || issued != nil {
+						mon(step, "request (%s) on a pool with every weight 0: status %d routed %d set-cookie %v", what, status, routed, issued != nil)
 					}
 				}
+			}
+			if status == 200 && issued != nil && positive == 0 {
+				mon(step, "request (%s) was balanced to %d although every member has weight 0", what, routed)
+			}
+			if status == 200 && issued != nil && positive > 0 && routed >= 0 && isMember(routed) && weightOf[routed] == 0 {
+				mon(step, "degrade: request (%s) was balanced to %s, a drained member (weight 0), while %d members have positive weight", what, universe[routed], positive)
+			}
+			if len(members) > 0 && status == 200 {
+				pinned := issued == nil
 				if mustDegrade {
 					hlib.Count("expect_degrade", 1)
 					if pinned {
@@ -807,7 +941,7 @@ func (c *stickyComp) Run(h *hlib.History) (mons []hlib.Mon, ok bool) {
 					s2, r2, i2 := do(issued)
 					if s2 != 200 || r2 != routed || i2 != nil {
 						mon(step, "degrade: follow-up request with the fresh cookie for %s: status %d routed %d set-cookie %v", universe[routed], s2, r2, i2 != nil)
-						if i2 != nil {
+						if i2 != nil || (s2 == 500 && r2 == -1) {
 							sim.next()
 						}
 					}
